@@ -665,24 +665,26 @@ impl Engine for SessionEngine {
             ctx.count("probe:partial_run");
         }
         let sched_hash = fnv64(&v.schedule.iter().flat_map(|t| (*t as u32).to_le_bytes()).collect::<Vec<u8>>());
+        // the recorded schedule, so that minimisation edits the scenario without re-rolling the schedule
+        let explicit_case = if v.violation.is_some() && !matches!(case.sched, Sched::Explicit(_)) {
+            let mut c = case.clone();
+            c.sched = Sched::Explicit(v.schedule.clone());
+            serde_json::to_value(c).ok()
+        } else {
+            None
+        };
         Outcome {
             violation: v.violation.map(|(k, d)| Violation::new(k, format!("{d} [schedule {:?}]", &v.schedule[..v.schedule.len().min(60)]))),
             nontrivial: switches >= 2 && v.distinct_plan_keys >= 2 && v.ok_calls > 0,
             steps: v.schedule.len() as u64,
             trace_hash: mix(&[sched_hash, v.ok_calls, v.err_calls]),
             executions: 1,
+            explicit_case,
         }
     }
 
     fn shrink(&self, case: &SessionCase) -> Vec<SessionCase> {
         let mut out = Vec::new();
-        if !matches!(case.sched, Sched::Explicit(_)) {
-            let v = execute(case);
-            let mut c = case.clone();
-            c.sched = Sched::Explicit(v.schedule);
-            out.push(c);
-            return out;
-        }
         if case.threads.len() > 1 {
             for i in 0..case.threads.len() {
                 let mut c = case.clone();
